@@ -273,7 +273,11 @@ pub fn c15_check(ck: &mut Checker, sim: &mut Sim, session: usize, req: &packed::
                 let p = (expected as f64) * (expected as f64) / 2.0 * dens / range * 16.0;
                 if p < 1e-9 {
                     bad.push((
-                        "fewer_samples_than_the_flyclient_bound".into(),
+                        if (gap as f64) / (last_n_cfg as f64) > 1e7 {
+                            "fewer_samples_than_the_flyclient_bound_for_an_astronomic_gap".into()
+                        } else {
+                            "fewer_samples_than_the_flyclient_bound".into()
+                        },
                         format!("{} < {} for gap {} last_n {}", n, expected, gap, last_n_cfg),
                     ));
                 } else {
